@@ -2,6 +2,8 @@ import NibabelModel.Model.C13
 import NibabelModel.Lemmas.C13
 import NibabelModel.Lemmas.C13_Cor
 import NibabelModel.Lemmas.C13_Ref
+import NibabelModel.Lemmas.C13_Gen
+import NibabelModel.Lemmas.C13_GenProxy
 /-!
 Props/C13 — the image data cache and its aliases follow the documented model.
 
@@ -12,7 +14,7 @@ heap.  All theorems quantify over arbitrary (unbounded) op sequences and arbitra
 `State.WF` (ids in use are below the heap size) holds initially and is preserved (`step_wf`, `run_wf`).
 -/
 namespace Nb.C13
-open Nb
+open Nb Nb.Py Nb.C13.PyEnc
 
 /-! ## Invariant -/
 
@@ -465,5 +467,135 @@ theorem source_constants :
   simp [Par.scaled]
 
 example : (⟨none, 2, .f4⟩ : Hdr).scale = none := rfl
+
+/-! ## Stage T: the method bodies of the CURRENT source (Generated/C13Funcs.lean)
+
+`harness/py2lean_c13.py` re-translates `DataobjImage.get_fdata / get_data / uncache / in_memory / dataobj` from the
+working tree on every run (`self` = dict of the attributes `_dataobj`, `_fdata_cache`, `_data_cache`; NumPy calls =
+the primitives `prims t` of Model/C13_Py.lean, whose behaviour is stated there and validated by the `gen` / `genst`
+streams).  The theorems below say that each translated body, run on the attribute dict of ANY well-formed abstract
+image state `t` with ANY `caching` string and dtype, returns exactly the documented model's result and new state;
+`gfinish` only decodes `(result, self)` / `ValueError` back into `Spec × Out` (the `in_memory` flag of the output
+being computed by the translated `in_memory`).  `Spec.Ok t`: the arrays the image refers to were handed out
+before (`abs s` of every well-formed `s`). -/
+
+/-- `get_fdata`: argument checks (both orders of failure), cache hit on the dtype's scalar type, otherwise
+    `np.asanyarray(self._dataobj, dtype)`, stored iff `caching == 'fill'`.  `Caching.ofStr` is thereby tied to
+    the strings the source compares with. -/
+theorem source_get_fdata (t : Spec) (h : t.Ok) (c : String) (d : DT) :
+    gfinish t (Gen.C13F.get_fdata (prims t) (encSelf t) (.str c) (scalarType d))
+      = some (Spec.step t (.getFdata (Caching.ofStr c) d)) :=
+  gen_get_fdata_eq t h c d
+
+example : (abs (run (initProxy [3, 4] ⟨some (2, 1), 2, .i2⟩) [.getFdata .fill .f4, .editLast])).Ok :=
+  abs_ok (run_wf' (initProxy_wf _ _) _)
+
+/-- `get_data` (legacy cache `_data_cache`, no dtype). -/
+theorem source_get_data (t : Spec) (h : t.Ok) (c : String) :
+    gfinish t (Gen.C13F.get_data (prims t) (encSelf t) (.str c))
+      = some (Spec.step t (.getData (Caching.ofStr c))) :=
+  gen_get_data_eq t h c
+
+example : (abs (initArray ⟨.f4, [3, 4], false⟩ ⟨none, 2, .f4⟩)).Ok := abs_ok (initArray_wf _ _)
+
+/-- `uncache` clears BOTH caches and nothing else (any state, well-formed or not). -/
+theorem source_uncache (t : Spec) :
+    gfinish t (Gen.C13F.uncache (prims t) (encSelf t)) = some (Spec.step t .uncache) :=
+  gen_uncache_eq t
+
+/-- `in_memory` returns the documented flag and leaves the object unchanged. -/
+theorem source_in_memory (t : Spec) :
+    Gen.C13F.in_memory (prims t) (encSelf t) = .ok (.tup2 (.bool t.inMemory) (encSelf t)) := by
+  have := gInMem_eq t
+  unfold gInMem at this
+  split at this
+  · rename_i b self' heq
+    split at this
+    · rename_i hs
+      cases this
+      rw [heq, hs]
+    · cases this
+  · cases this
+
+/-- `dataobj` hands out `self._dataobj` itself (so `np.asanyarray(img.dataobj)` is the model's `asarray`). -/
+theorem source_dataobj (t : Spec) (h : t.Ok) :
+    Gen.C13F.dataobj (prims t) (encSelf t) = .ok (.tup2 (encObj t.img) (encSelf t)) ∧
+    gfinish t (gAsarray t) = some (Spec.step t .asarray) :=
+  ⟨by simp [Gen.C13F.dataobj], gen_asarray_eq t h⟩
+
+example : (abs (run (initProxy [3] ⟨none, 1, .f8⟩) [.getData .fill, .asarray])).Ok :=
+  abs_ok (run_wf' (initProxy_wf _ _) _)
+
+/-- The defaults of the translated signatures: `get_fdata()` = `get_fdata('fill', np.float64)` (the default dtype
+    expression, pushed through the `np.dtype` primitive, is float64), `get_data()` = `get_data('fill')`. -/
+theorem source_defaults :
+    Gen.C13F.get_fdata_default_caching = .str "fill" ∧
+    npDtype Gen.C13F.get_fdata_default_dtype = .ok (encDtype .f8) ∧
+    Gen.C13F.get_data_default_caching = .str "fill" := by
+  refine ⟨rfl, ?_, rfl⟩
+  simp [Gen.C13F.get_fdata_default_dtype, npDtype, decDtype?, decScalar?, DT.ofNp, encDtype, encDT]
+
+/-- Whole histories: the outputs computed step by step by the TRANSLATED methods (ops that are not
+    `DataobjImage` methods — edits of returned arrays, proxy slicing, header edits — being `Spec.step`) from the
+    abstraction of any well-formed implementation-model state are that model's trace and the documented model's
+    trace, for every op sequence and every `caching` spelling.  So every theorem of this file about
+    `step / run / trace` (cache identity, uncached reads, visibility of edits, in_memory, header independence) holds
+    of the method bodies as they are in the working tree now. -/
+theorem source_methods_follow_model {s : State} (h : s.WF) (gs : List GOp) :
+    gtrace (abs s) gs = some (trace s (gs.map GOp.toOp)) ∧
+    gtrace (abs s) gs = some (Spec.trace (abs s) (gs.map GOp.toOp)) :=
+  ⟨gtrace_eq h gs, by rw [gtrace_eq h gs, (sim_run h _).1]⟩
+
+example : (initProxy [3, 4] ⟨some (2, 1), 2, .i2⟩).WF := initProxy_wf _ _
+
+/-- `cache_identity` carried over to the translated methods: a filling `get_fdata(dtype=d)`, then ANY ops other
+    than `uncache` / a filling read of another float dtype, then `get_fdata(dtype=d)` with either caching string —
+    executed by the translated bodies — return the same array identity `id` first and last. -/
+theorem source_cache_identity {s : State} (h : s.WF) (d : DT) (hd : d ≠ .i2) (gs : List GOp)
+    (hk : ∀ g ∈ gs, keepsCache d g.toOp = true) (c' : String) (hc' : c' = "fill" ∨ c' = "unchanged") :
+    ∃ id a a' b b' mid,
+      gtrace (abs s) (.getFdata "fill" d :: gs ++ [.getFdata c' d])
+        = some (⟨.arr id a, b⟩ :: mid ++ [⟨.arr id a', b'⟩]) ∧
+      a.dt = d ∧ a'.dt = d ∧ mid.length = gs.length := by
+  have hc'' : Caching.ofStr c' ≠ .other := by
+    rcases hc' with h | h <;> subst h <;> decide
+  have hk' : ∀ op ∈ gs.map GOp.toOp, keepsCache d op = true := by
+    intro op hop
+    obtain ⟨g, hg, rfl⟩ := List.mem_map.mp hop
+    exact hk g hg
+  obtain ⟨id, a, a', h1, h2, h3, h4, _, _⟩ := cache_identity h d hd (gs.map GOp.toOp) hk' (Caching.ofStr c') hc''
+  refine ⟨id, a, a', (step s (.getFdata .fill d)).2.inMem,
+    (step (run (step s (.getFdata .fill d)).1 (gs.map GOp.toOp)) (.getFdata (Caching.ofStr c') d)).2.inMem,
+    trace (step s (.getFdata .fill d)).1 (gs.map GOp.toOp), ?_, h2, h4, by simp [trace_length]⟩
+  rw [gtrace_eq h]
+  have e1 : Caching.ofStr "fill" = .fill := by decide
+  simp only [List.map_cons, List.map_append, List.map_nil, GOp.toOp, e1, trace, trace_append, ← h1, ← h3, run]
+
+example : (initArray ⟨.i2, [3, 4, 5], false⟩ ⟨none, 3, .i2⟩).WF ∧ DT.f8 ≠ .i2 ∧
+    (∀ g ∈ [GOp.other .editLast, .getFdata "unchanged" .f4, .asarray, .getData "fill", .getFdata "fill" .f8,
+            .other (.hdr .img (.scale 3 5))], keepsCache .f8 g.toOp = true) :=
+  ⟨initArray_wf _ _, by decide, by decide⟩
+
+/-- `ArrayProxy.__init__`'s `spec` handling, translated from the current `arrayproxy.py` (the statements that mention
+    `spec` / `par`), computes the hand-written `ProxySpec.par` for EVERY spec: a header object (slope / intercept
+    independently `None`), a tuple `((n,1,1), dtype) + rest` of any length, `()` and `((n,1,1),)`. -/
+theorem source_proxy_spec (sp : ProxySpec) : gProxySpec sp = some sp.par := gen_proxy_spec_eq sp
+
+example : gProxySpec (.header (some 2) none 3 .i2 352) = some (.ok ⟨3, .i2, 352, 2, 0⟩) := by
+  rw [source_proxy_spec]; rfl
+
+/-- … so the parameters the model's proxy is built with (`Par.ofHdr`, used by `initProxy` and every theorem above)
+    are the ones the current code copies out of a header object, and a tuple spec gets offset 0, slope 1, intercept
+    0 for the members it lacks, any other length being a `TypeError`. -/
+theorem source_proxy_spec_header (h : Hdr) (io : IOp) (off : Int) (n : Nat) (dt : DT) (rest : List Int) :
+    gProxySpec (.header (h.scale.map (·.1)) (h.scale.map (·.2)) h.n h.dt off)
+      = some (.ok ⟨h.n, (Par.ofHdr h io).dt, off, (Par.ofHdr h io).slope, (Par.ofHdr h io).inter⟩) ∧
+    gProxySpec (.tuple n dt rest) =
+      some (if rest.length ≤ 3 then .ok ⟨n, dt, rest[0]?.getD 0, rest[1]?.getD 1, rest[2]?.getD 0⟩
+            else .error .typeError) ∧
+    ∀ w, gProxySpec (.short w n) = some (.error .typeError) :=
+  ⟨gen_proxy_spec_header h io off, (gen_proxy_spec_tuple n dt rest).1, (gen_proxy_spec_tuple n dt rest).2⟩
+
+example : (Par.ofHdr ⟨some (2, 1), 3, .i2⟩ {}).slope = 2 ∧ (Par.ofHdr ⟨none, 3, .f4⟩ {}).slope = 1 := by decide
 
 end Nb.C13
